@@ -139,7 +139,7 @@ type failFlag struct {
 	on bool
 }
 
-func (f *failFlag) get() bool { f.mu.Lock(); defer f.mu.Unlock(); return f.on }
+func (f *failFlag) get() bool  { f.mu.Lock(); defer f.mu.Unlock(); return f.on }
 func (f *failFlag) set(b bool) { f.mu.Lock(); f.on = b; f.mu.Unlock() }
 
 type failingFileAllocator struct {
@@ -579,7 +579,7 @@ func runHistory(seed uint64, nfs bool, ops []string, res *hx.Result) (string, in
 				return "bad-op " + op, i
 			}
 		case <-time.After(watchdog):
-			return fmt.Sprintf("call %q did not return within %v (blocked; a previous call left a lock behind)", op, watchdog), i
+			return fmt.Sprintf("call %q did not return within %v (blocked on a lock that an earlier call left behind or that the call itself already holds)", op, watchdog), i
 		}
 		if bad := w.lockedDirs(); len(bad) > 0 {
 			return fmt.Sprintf("after %q returned, the mutex of directory #%v is still held although no call is in progress", op, bad), i
@@ -913,7 +913,10 @@ func main() {
 				res.TracesVsImpl++
 				if what != "" {
 					hist := h[:at+1]
-					hist = hx.Shrink(hist, func(c []string) bool { w, _ := runHistory(o.Seed, nfs, c, nil); return w != "" && !strings.HasPrefix(w, "bad-op") })
+					hist = hx.Shrink(hist, func(c []string) bool {
+						w, _ := runHistory(o.Seed, nfs, c, nil)
+						return w != "" && !strings.HasPrefix(w, "bad-op")
+					})
 					demonstrated[fn] = true
 					extra := ""
 					if e, ok := checkerBad[fn]; ok {
